@@ -213,6 +213,14 @@ def r1b_capture_write_is_an_effect(ctx):
         rd = fields_read(g, "FunctionSummary")
         for f in ("transitive_capture_writes", "direct_capture_writes"):
             if f in rd:
+                # ... all of them: the question is "does the callee write any enclosing variable", not "one of mine" - a
+                # helper two levels down that bumps a script-level counter is observable by everyone
+                how = [(c.callee or "").split("::")[-1] for c in g.calls() if c.args and f in sh(ne(g.deep(c.args[0])))]
+                filtered = [h for h in how if h in ("any", "all", "filter", "find", "position", "contains", "binary_search")] or \
+                    [1 for k in ctx.lib.closures_of(g.id) if "owner" in k.dump() and any(f in sh(ne(g.deep(a))) for c in g.calls() for a in c.args if "{closure" in sh(ne(g.deep(a))))]
+                if filtered and "is_empty" not in how:
+                    ctx.bad("capture-write-is-an-effect|filtered|%s" % f, g.where(rd[f][0]), "stmt_effective_class looks at the callee's %s through a filter (%s) instead of asking whether the set is empty: a write to an enclosing variable that belongs to another function than the caller - a script-level counter bumped from two levels down - no longer makes the call an effect, and `make unused get serve()` is pruned" % (f, ", ".join(str(x) for x in filtered[:2])))
+                    return
                 where.append(("stmt_effective_class reads %s" % f, g.where(rd[f][0])))
     # (b) the class stored in the summaries is computed from the capture writes
     for fid in ("analysis::summary::compute_body_classes", "analysis::summary::initialize_summaries", "analysis::summary::summarize_component"):
@@ -588,6 +596,27 @@ def r4_dataflow_shape(ctx):
         ctx.ok("transfer|kill-before-gen", aot.where(), "every clear_local precedes every set_local (live = (live - def) U use)")
     else:
         ctx.bad("transfer|kill-before-gen", aot.where(), "apply_op_transfer can clear a local after setting it: a statement that reads and writes the same variable (`x get x add 1`) would kill its own use")
+    # the block-level fixpoint applies the same equation with whole masks: in = ((out - defs) - kills) U uses.  Within one
+    # round, no subtraction from the live-in set may follow the union with the block's uses (a use in the block keeps the
+    # variable live on entry even if the block also ends its scope).
+    ua = ctx.need("analysis::liveness::unused_assignments")
+    ctx.touch(ua)
+    subs = [c for c in ua.calls() if (c.callee or "").split("::")[-1] in ("subtract_mask", "subtract_from", "difference_with")]
+    unis = [c for c in ua.calls() if (c.callee or "").split("::")[-1] in ("union_from", "union_mask", "union_with") and "uses" in sh(ne(ua.deep(c.args[1])))]
+    if not subs or not unis:
+        ctx.bad("block-transfer|shape", ua.where(), "unused_assignments no longer computes live-in from live-out with mask subtraction and a union of the uses")
+    else:
+        late = []
+        for u in unis:
+            tgt = sh(ne(ua.deep(u.args[0])))
+            heads = common_loop_head(ua, u.block, u.block)
+            for sb in subs:
+                if sh(ne(ua.deep(sb.args[0]))) == tgt and sb.block in ua.reach_from_succ(u.block, removed_nodes=heads):
+                    late.append(sh(ne(ua.deep(sb.args[1])))[-30:])
+        if late:
+            ctx.bad("block-transfer|kill-after-gen|%s" % late[0].split(".")[-1], ua.where(unis[0].block), "the block-level fixpoint subtracts `%s` from the live-in set after it has added the block's uses: a variable that the block reads and whose scope the block ends (or that it reads and redefines) is no longer live on entry, the assignment that feeds the read is reported unused and pruned" % late[0])
+        else:
+            ctx.ok("block-transfer|kill-before-gen", ua.where(unis[0].block), "in = ((out - defs) - kills) U uses: every subtraction precedes the union with the uses")
     if aot.calls_to("analysis::liveness::set_all_locals"):
         ctx.ok("transfer|unavailable-all-live", aot.where(), "unavailable summary -> all locals live")
     else:
@@ -764,6 +793,19 @@ def r4c_summaries_are_a_transitive_closure(ctx):
         if want not in seen:
             ctx.bad("closure|missing|%s" % want, sc.where(), "summarize_component no longer propagates %s from callees to callers" % want)
     ctx.floor("set extensions in summarize_component", len(ext), 3)
+    # every direct callee contributes - the members of the function's own component above all (mutually recursive functions
+    # learn each other's effects only here).  The one callee that may be skipped is the function itself.
+    if ext:
+        skips = []
+        for S, al in sc.constraints(ext[0].block):
+            si = sc.switch_info(S)
+            d = sh(ne(sc.deep(sc.blocks[S]["t"]["d"])))
+            if si["kind"] == "call" and (si["callee"] or "").split("::")[-1] in ("contains", "any", "binary_search", "binary_search_by_key", "is_some", "position"):
+                skips.append(d[:60])
+        if skips:
+            ctx.bad("closure|skip|membership", sc.where(ext[0].block), "summarize_component skips a callee under `%s` - a membership test, not `callee == function`: callees inside the component are the ones that matter for mutual recursion, and with them skipped ping never learns what pong reads or writes (an assignment that only pong reads is pruned)" % skips[0])
+        else:
+            ctx.ok("closure|skip", sc.where(ext[0].block), "no callee other than the function itself is skipped")
     j = [c for c in sc.calls() if (c.callee or "").endswith("ExprClass::join")]
     if j and all(sh(ne(sc.deep(c.args[1]))).endswith(".transitive_class") for c in j):
         ctx.ok("closure|class", sc.where(j[0].block), "caller class joins the callee's transitive class")
